@@ -52,6 +52,13 @@ def events(env, tier):
     # ranges with a step that does not divide the span (a:b:c denotes a, a+c, ... below b)
     ev.append(("for", "int", "j", ("range", 0, 5, 2), [("stmt", "L2", [V("j")], [], [V("j")], "none")]))
     ev.append(("for", "int", "j", ("range", 1, 11, 3), [("stmt", "L3", [], [("k", B("*", V("j"), N("2")))], [B("+", V("j"), N("1")), V("j")], "rd")]))
+    # value lists of strings / booleans: one value of any length, several values
+    ev.append(("for", "str", "w", ("vals", [lang.S("xp")], "sq"), [("stmt", "L4", [V("w")], [("k", V("w"))], [N("0")], "none")]))
+    ev.append(("for", "str", "w", ("vals", [lang.S(""), lang.S("a b"), lang.S("q0")], "none"), [("stmt", "L5", [V("w")], [], [N("1")], "none")]))
+    ev.append(("for", "bool", "f", ("vals", [lang.BOOL(False), lang.BOOL(True)], "rd"), [("stmt", "L6", [], [("k", V("f"))], [N("1")], "none")]))
+    # a loop variable called like a variable declared before (inside the loop the name is the loop value)
+    if "n" in env:
+        ev.append(("for", "int", "n", ("range", 0, 2, None), [("stmt", "L7", [V("n"), B("+", V("n"), N("5"))], [("k", V("n"))], [V("n")], "none")]))
     ev.append(("blank",))
     return ev
 
@@ -62,8 +69,8 @@ def check_script(sc):
     text = lang.render(sc)
     try:
         m = denote.Model().run(sc)
-    except denote.OutOfDomain:
-        return "ood"
+    except (denote.OutOfDomain, denote.Refused):
+        return "ood"        # not a valid script (e.g. a name used after the loop that took it over): outside the quantifier
     st, p = common.loads(text)
     if st == "exc":
         return ("C02/load-raises:" + type(p).__name__, common.exc_sig(p))
